@@ -14,7 +14,7 @@ TEXT = {
             "Lean 4 proof (reachability invariant over log+journal+disk, codec round-trip, GC suffix simulation) + differential correspondence"),
     "C02": ("Lean theorem C02_crash_atomic: for every state reachable from an empty directory (any calls, roll-overs, GC passes, restarts) at a call boundary with an empty BufWriter (flush-per-operation policy), for EVERY call in flight, EVERY prefix of its OS-level operations and EVERY byte cut of the write in progress (any buffer capacity / re-chunking; roll-over windows: next file absent, created empty, zero-filled; GC position entries; between any two unlinks), open of the crash image succeeds and the recovered queues agree with the state before the call or with the state after it on names, records (positions, payloads) and next positions (AbsEq = the C05 abstraction); C02_crash_atomic_exact: before the first unlink even the file handles agree; C02_second_crash(+_exact): the same for a crash during the effects of open itself. Hypotheses: entries serialise (C07.WF) and TornStep (a payload whose lost, zero-filled tail changed it fails its CRC = no collision). Usability after recovery: C02_resume (byte level, every cut), C02_recovered_usable_partial + clean_crash_points (the full invariant from which C01_restart_exact and this theorem derive is re-established at crash points that leave no torn remnant, no pre-created file and no partial unlink; for the others only the recovered queues are characterised) - that remaining part is enumerated by the crash campaign's continuation + restart oracle on the real library and the model. Finding recorded in DESIGN: between two unlinks, when an entry is longer than a whole WAL file, the recovered FILE HANDLE of its records can name an earlier file than live (safe side; not observable through records/positions).",
             "Lean 4 proof (reachability invariant + torn-tail scan on the multi-file tape + GC suffix at every intermediate first file) + crash-point enumeration, differential"),
-    "C03": ("Lean theorems C03_durable (from any reachable persist point, for ANY run of calls under ANY policy and ANY buffering, roll-overs and GC included, a crash at any OS-operation prefix and byte cut recovers the state after SOME prefix of the calls - never older than the persist point, never a mixture; equality on names, records and next positions), C03_durable_after (if the BufWriter was empty after the first m calls and the crash comes later, at least those m calls are recovered), C03_power_loss (ordered-persistence model: after an fsync-ending call, every image containing that sync recovers at least that call), unlink_after_sync(+_open) and flush_then_unlink_image (no file is removed while superseding data is volatile), persist-point lemmas (create/delete/persist/Always/due OnDelay). Hypotheses: TornRun (no CRC collision on torn payloads), C07.WF. Always(FlushAndFsync) append/truncate as power-loss persist points are covered by always_persists + buffer_empty but not by a dedicated tail lemma. Tied to the code by the crash-policies campaign (7 policies, API-promised persist points as lower bounds, power-loss points = prefix up to the last fsync).",
+    "C03": ("Lean theorems C03_durable (from any reachable persist point, for ANY run of calls under ANY policy and ANY buffering, roll-overs and GC included, a crash at any OS-operation prefix and byte cut recovers the state after SOME prefix of the calls - never older than the persist point, never a mixture; equality on names, records and next positions), C03_durable_after (if the BufWriter was empty after the first m calls and the crash comes later, at least those m calls are recovered), C03_power_loss (ordered-persistence model: after an fsync-ending call, every image containing that sync recovers at least that call), unlink_after_sync(+_open) and flush_then_unlink_image (no file is removed while superseding data is volatile), persist-point lemmas (create/delete/persist/Always/due OnDelay). Hypotheses: TornRun (no CRC collision on torn payloads), C07.WF. C03_posix (POSIX-style power loss, executable model MRL/Model/PowerLoss.lean: a file name is durable only once the directory was fsynced after its creation, a file content only up to its last fdatasync): after ANY call whose effects end with flush, fsync(file), fsync(dir) - create/delete (forced_tail), persist(FlushAndFsync) (persist_tail), every mutating call under Always(FlushAndFsync) (always_tail), a due OnDelay(FlushAndFsync) (onDelay_tail) - a power loss at ANY later instant leaves an image that opens and yields the state after i calls for some i >= that call; proved by reducing the power-loss image to an effect-boundary crash image (power_reduction: an exact equality of images, from a syntactic write/sync/create/unlink discipline pd that every run from a reachable log obeys, pd_effsD). C03_posix_reachX: the same for histories mixing calls and clean restarts (reopen: the effects of open itself, ensureLen/set_len, its GC pass and roll-over into an existing or new file), started from ANY state reachable with crashes (C02U.ReachX: pre-created next file, orphan frames, partial unlinks); reachX_history shows such histories are exactly ReachX runs. unlink_prefix_window: inside a call, unlinks persisting lazily but in order give images that are power images of shorter prefixes. Not proved: unlinks of a GC pass that stay volatile beyond the call (truncate under a non-fsyncing policy, the GC of open) while later appends become durable; directory operations persisting out of order are outside the model. Tied to the code by the crash-policies campaign (7 policies, API-promised persist points as lower bounds; at every power-loss point the model driver computes powerImage itself from its refined operation list and the harness computes the image from the real trace: directory digests and recovered states are compared).",
             "Lean 4 proof (multi-call crash cut on the reachability invariant) + crash-point enumeration under 7 policies, differential"),
     "C04": ("Lean theorems: the specification's next position never decreases within an incarnation and appended positions are fresh, "
             "consecutive and >= next (spec_next_mono, spec_append_fresh, spec_run_next_mono, spec_below_preserved), transferred to the model "
@@ -32,14 +32,11 @@ TEXT = {
             "Lean 4 proof (GC prefix invariant) + differential correspondence + directory oracle"),
     "C07": ("Lean theorem C07_roundtrip: for every geometry (7 < B <= 65542), every start cursor, every list of entries of any sizes, the "
             "reader positioned at the cursor reads back exactly the written entries and stops where the writer stopped; decode_encode for "
-            "API-level entries. Tied to the code by byte-exact comparison of the real writer/reader (hook H4) with the model.",
+            "API-level entries. C07_recover_roundtrip: the same through recover on the multi-file image of any reachable state (entries spanning blocks and files, after roll-overs and GC passes): the reader delivers, with no corruption event, exactly the journal entries located in tracked files, and the writer resumes at the end of the tape (or at the next block start when fewer than 7 bytes remain). Tied to the code by byte-exact comparison of the real writer/reader (hook H4) with the model.",
             "Lean 4 proof by induction on the writer's loop / block list + differential correspondence"),
-    "C08": ("Lean theorems: recover_sorted (for EVERY image a successful recovery has strictly increasing positions and distinct names), "
-            "recover_records_subset (every recovered record is a record of an entry the reader delivered and the decoder accepted), "
-            "assemble_whole_entry (a delivered entry is the concatenation of a complete First..Last run with no error in between). The "
-            "remaining link (a delivered frame is a genuine frame unless the CRC collides) is exercised by the damage campaign.",
-            "Lean 4 proof over arbitrary images + damage enumeration, differential"),
-    "C09": ("Lean theorems C09_one_frame (byte level: with one frame's checksum/payload bytes replaced, any role, the reader delivers exactly the other entries, in order), C09_drop_one (replay level: for every reachable journal - any history, roll-overs, GC - erasing ANY one entry never makes the replay fail and every record of the live queues not appended by the erased entry is recovered with the same position and payload) and C09_end_to_end (their composition for journals in the first file). Hypothesis: FrameDetected (no CRC collision). Tied to the code by the aimed-damage campaign (retained-records-survive oracle) and raw reads through hook H4.",
+    "C08": ("Lean theorems: C08_recover_genuine (for the image of ANY state reachable by calls and restarts, and ANY in-place damage of it - same files, same lengths, arbitrary bytes - if open succeeds, every recovered record is (queue, position, payload) of an append call of the history and the queues are the replay of a sub-sequence of the journal entries in tracked files; hypothesis NoAccidentalFrameImg = no CRC-32 collision: wherever the reader's acceptance test passes, the clean tape has that very frame there); C08_crash_genuine_partial / C08_crash_restart_partial (the same over states reachable WITH crashes at any point - tapes with junk slots, orphan First/Middle runs, a residue, an empty next file - against a journal J satisfying the relaxed disk invariant CInvX; partial: that J's entries were all handed to the writer by calls of the history is proved across one restart only); C08_genuine_entries/records (single stream); recover_sorted (for EVERY image a successful recovery has strictly increasing positions and distinct names), recover_records_subset, assemble_whole_entry; negative_example (finding F5: moving whole valid blocks is NOT covered - a copied block splices entries). Tied to the code by the damage campaign (genuine-records oracle on the real library; open outcome, state and directory compared with the model on every damaged image).",
+            "Lean 4 proof over arbitrary damaged images of reachable states + damage enumeration, differential"),
+    "C09": ("Lean theorems C09_one_frame (byte level: with one frame's checksum/payload bytes replaced, any role, the reader delivers exactly the other entries, in order), C09_drop_one (replay level: for every reachable journal - any history, roll-overs, GC - erasing ANY one entry never makes the replay fail and every record of the live queues not appended by the erased entry is recovered with the same position and payload) and C09_end_to_end (their composition for journals in the first file). C09_recover_one_frame(_all): the same through the whole of recover on the multi-file disk image of any state reachable without crashes (ReachD), for every policy and GC order, wherever the tape ends (the _all version removes the former restriction that at least 7 bytes remain in the last block). Hypothesis: FrameDetected (no CRC collision). Tied to the code by the aimed-damage campaign (retained-records-survive oracle) and raw reads through hook H4.",
             "Lean 4 proof (byte-level single-frame damage + drop-one simulation over reachable journals) + aimed damage enumeration, differential"),
     "C10": ("Lean: recovery is a total function (no fuel); recover_no_panic / recover_no_panic_img: the panic-instrumented twin recoverP (checked u64 arithmetic of next_position, truncate_head, FileTracker::inc made explicit) never reports a panic for ANY image whose delivered entries carry no position 2^64-1 and whose file numbers leave room for the GC roll-overs, and the recovered queues are not poisoned (read accessors do not overflow); recover_buf_bounded (the reassembly buffer never exceeds the image size); ioCalls_bounded (no retry loop); witnesses truncate_max_panics / append_max_poisons / noMaxFiles_insufficient show the hypotheses are needed (finding F4). Partial: OS behaviour and the assert in RollingWriter::write are exercised by the damage/bytes/names campaigns under catch_unwind + watchdog, not proved.",
             "Lean 4 proof (panic-instrumented twin of recovery) + damage / crafted-input enumeration, differential"),
@@ -99,8 +96,8 @@ m["engines"] = [
     {"name": "lean-model", "path": "/verif/lean", "serves_properties": sorted(PROPS),
      "kind_free_text": "Lean 4 model (MRL/Model), specification (MRL/Spec), theorems (MRL/Props, MRL/Proofs) and compiled model driver"},
     {"name": "harness", "path": "/verif/harness", "serves_properties": sorted(PROPS),
-     "kind_free_text": "Rust differential harness driving the real library (hooks on): campaigns ops, crash, damage, fault, lockstep, projection, names, bytes, edge; property oracles"},
+     "kind_free_text": "Rust differential harness driving the real library (hooks on): campaigns ops, crash, damage, fault, lockstep, projection, names, bytes, edge, oversize; property oracles"},
 ]
-m["notes"] = "see DESIGN.md; known_findings.json lists genuine defects (F1-F3 fixed by fix: commits, F4/F5 recorded)"
+m["notes"] = "see DESIGN.md; known_findings.json lists genuine defects (F1-F3 and F6 fixed by fix: commits, F4/F5 recorded)"
 json.dump(m, open(os.path.join(VERIF, "MANIFEST.json"), "w"), indent=1)
 print("MANIFEST.json: %d checks" % len(checks))
